@@ -62,6 +62,7 @@ class FnTarget:
         self.omit = False
         self.canary = True
         self.opt_member = False  # `//@ fn? NAME`: the member may be absent from the impl/trait (skipped + recorded)
+        self.attrs = None      # `//@ fn-prefix`: attribute text put before this fn (e.g. #[verifier::when_used_as_spec(..)])
 
 
 class Block:
@@ -207,6 +208,8 @@ class Assembler:
                         raise UnitSyntax('line %d: %s outside a fn target' % (blk.vu_line, kind))
                     elif kind == 'spec':
                         tgt.spec = text
+                    elif kind == 'fn-prefix':
+                        tgt.attrs = text
                     elif kind == 'head':
                         tgt.head = text
                     elif kind == 'loop':
@@ -258,6 +261,9 @@ class Assembler:
                             cur_field = ('head-all',)
                         elif d == 'prefix':
                             cur_field = ('prefix',)
+                        elif d == 'fn-prefix':
+                            # like `prefix`, but for the fn target addressed by the preceding `//@ fn NAME` of a whole impl/trait
+                            cur_field = ('fn-prefix',)
                         elif d.startswith('loop? ') or d.startswith('loop '):
                             # optional variants (`loop?`, `iter?`, `hint?`): the splice is skipped, not an anchor
                             # loss, when the loop/statement does not exist -- lets one unit assemble against two
@@ -273,6 +279,19 @@ class Assembler:
                                 blk.cur.loop_iters[key_] = opt[5:]
                         elif d == 'tail':
                             cur_field = ('tail',)
+                        elif d.startswith('closure-all? ') or d.startswith('closure-all '):
+                            # `closure-all /|params|/`: the contract text applies to EVERY closure of the body whose parameter
+                            # list reads like that (at least one, unless `closure-all?`); `$body` in the text stands for the
+                            # closure's own body expression ("returns what its body evaluates to": `-> (b: bool) ensures b == ($body)`).
+                            # Survives adding / removing / reordering such closures, unlike ordinals.
+                            opt_ = d.startswith('closure-all? ')
+                            key_ = _loop_key(d[13:] if opt_ else d[12:])
+                            if not isinstance(key_, str):
+                                raise UnitSyntax('line %d: closure-all needs /|params|/' % (i + 1))
+                            key_ = '*' + key_
+                            cur_field = ('closure', key_)
+                            if opt_:
+                                blk.cur.optional.add(('closure', key_))
                         elif d.startswith('closure? ') or d.startswith('closure '):
                             # a closure is addressed by its ordinal (`closure 2`) or by its parameter list written as it
                             # stands in the source (`closure /|global_names|/`, `closure /||/`); `closure?` = optional
@@ -320,6 +339,8 @@ class Assembler:
                             # R8: a tuple-struct/variant constructor passed as a function value, `f(Path::Ctor)`, is
                             # eta-expanded to `f(|eta_x| Path::Ctor(eta_x))` (Verus: "using a datatype constructor as a
                             # function value" is unsupported); same meaning
+                            # `//@ eta Path::f -> (r: T) ensures ..`: the text after the path is the contract of the closure
+                            # the expansion introduces: `f(|eta_x| -> (r: T) ensures .. { Path::f(eta_x) })`
                             blk.eta.append(d[4:].strip())
                         elif d == 'panics-diverge':
                             # R2b: partial-correctness reading of panic!/unreachable!/..: the macro call is replaced
@@ -467,6 +488,8 @@ class Assembler:
                     tgt.loops = {k_: _res(v_) for k_, v_ in tgt.loops.items()}
                     tgt.hints = [(a_, _res(b_), c_) for (a_, b_, c_) in tgt.hints]
                     self.rewrites.append('P %s fn %s: $N in the spliced text = parameter names %s' % (blk.relpath, fn_item.name, names))
+            if tgt and tgt.attrs:
+                edits.append((fn_item.kw_start, fn_item.kw_start, tgt.attrs.strip() + '\n'))
             if fn_item.st_body is None:
                 # trait method declaration without body: spec goes before ';'
                 if tgt and tgt.ret:
@@ -598,13 +621,37 @@ class Assembler:
                             ckey = closure_no
                         else:
                             for key_ in tgt.closures:
-                                if isinstance(key_, str) and ''.join(key_.split()) == chdr:
+                                if isinstance(key_, str) and key_.startswith('*') and ''.join(key_[1:].split()) == chdr:
+                                    ckey = key_
+                                elif isinstance(key_, str) and ''.join(key_.split()) == chdr:
                                     if key_ in seen_closures:
                                         raise AnchorLost('closure header %s occurs more than once in fn %s (%s)' % (key_, tgt.name, blk.relpath))
                                     ckey = key_
                     if ckey is not None:
                         seen_closures.add(ckey)
                         ctext = tgt.closures[ckey]
+                        if '$body' in ctext:
+                            # the closure's own body expression, verbatim (block body: the text between its braces)
+                            if st[pe + 1].text == '{':
+                                bq = match_close(st, pe + 1)
+                                btext = text[st[pe + 1].end:st[bq].start]
+                            else:
+                                bq = pe + 1
+                                bdepth = 0
+                                while True:
+                                    tb = st[bq]
+                                    if tb.kind == 'punct':
+                                        if tb.text in '([{':
+                                            bdepth += 1
+                                        elif tb.text in ')]}':
+                                            if bdepth == 0:
+                                                break
+                                            bdepth -= 1
+                                        elif tb.text in ',;' and bdepth == 0:
+                                            break
+                                    bq += 1
+                                btext = text[st[pe + 1].start:st[bq - 1].end]
+                            ctext = ctext.replace('$body', ' '.join(btext.split()))
                     # R8 (opt-in, `//@ closure-params-to-let`): a closure parameter that is a destructuring pattern,
                     # `|S { f, .. }| body`, is moved into a `let` at the head of the body:
                     # `|__rbv_pN| { let S { f, .. } = __rbv_pN; body }` -- the definition of a pattern parameter
@@ -727,15 +774,20 @@ class Assembler:
                     k = kc + 1
                     continue
                 k += 1
-            for ctor in blk.eta:
+            for ctor_full in blk.eta:
+                ctor, _, econtract = ctor_full.partition(' ')
+                econtract = econtract.strip()
                 found = 0
                 for mo in re.finditer(r'\(\s*(%s)\s*\)' % re.escape(ctor), text[st[a].end:st[b].start]):
                     s0 = st[a].end + mo.start(1)
                     e0 = st[a].end + mo.end(1)
-                    edits.append((s0, e0, '|eta_x| %s(eta_x)' % ctor))
+                    if econtract:
+                        edits.append((s0, e0, '|eta_x| %s { %s(eta_x) }' % (econtract, ctor)))
+                    else:
+                        edits.append((s0, e0, '|eta_x| %s(eta_x)' % ctor))
                     self.rewrites.append('R9 %s:%d constructor %s passed as a function value eta-expanded' % (blk.relpath, src.line_of(s0), ctor))
                     found += 1
-                blk.eta_found[ctor] = blk.eta_found.get(ctor, 0) + found
+                blk.eta_found[ctor_full] = blk.eta_found.get(ctor_full, 0) + found
             if tgt:
                 for n in tgt.closures:
                     if n not in seen_closures and ('closure', n) not in tgt.optional:
